@@ -11,6 +11,8 @@
 (*   LA that starts with a digit or "." is evaluated as a numeric literal;   *)
 (*   the hand-chosen strings of C06Str.tla are applied to all of these with  *)
 (*   a wide set of radix arguments.                                          *)
+(* Fam = "self": as "dom", and the digits of 9.8.1 are also computed with    *)
+(*   NumText!ShortestDigits (independent formulation) and must agree.        *)
 (* Fam = "dom": number -> text.  The cases (operation, double, argument) are *)
 (*   read from dom.ndjson, which the harness fills with seeded random and    *)
 (*   boundary doubles; only the domain comes from there, the expected text   *)
@@ -54,6 +56,8 @@ Js(c) ==
     CASE c.op = "String"        -> <<"String(", Lit(NumV(c.x)), ")">>
       [] c.op = "concat"        -> <<"'' + ", Lit(NumV(c.x))>>
       [] c.op = "rt"            -> <<"Number(String(", Lit(NumV(c.x)), "))">>
+      [] c.op = "parseIntNum"   -> <<"parseInt(", Lit(NumV(c.x)), ")">>
+      [] c.op = "parseFloatNum" -> <<"parseFloat(", Lit(NumV(c.x)), ")">>
       [] c.op = "toString"      -> <<"(", Lit(NumV(c.x)), ").toString(", Lit(c.a), ")">>
       [] c.op = "toFixed"       -> <<"(", Lit(NumV(c.x)), ").toFixed(", Lit(c.a), ")">>
       [] c.op = "toExponential" -> <<"(", Lit(NumV(c.x)), ").toExponential(", Lit(c.a), ")">>
@@ -69,9 +73,11 @@ Js(c) ==
       [] c.op = "litstr"        -> <<"String(", [units |-> c.s], ")">>
       [] c.op = "pistr"         -> <<"String(parseInt(", Lit(StrV(c.s)), ", ", Lit(c.a), "))">>
 
-Expect(Str(_, _), RT(_, _), Rad(_, _, _), Fix(_, _, _, _), Ex(_, _, _, _), Pr(_, _, _, _), TN(_), PF(_), PI(_, _), LE(_), LS(_), PS(_, _), TF(_, _), TE(_, _), TP(_, _), c, sd, rp) ==
+Expect(Str(_, _), RT(_, _), Rad(_, _, _), Fix(_, _, _, _), Ex(_, _, _, _), Pr(_, _, _, _), TN(_), PF(_), PI(_, _), LE(_), LS(_), PS(_, _), TF(_, _), TE(_, _), TP(_, _), PIN(_, _), PFN(_, _), c, sd, rp) ==
     CASE c.op \in {"String", "concat"} -> Str(c.x, sd)
       [] c.op = "rt"            -> RT(c.x, sd)
+      [] c.op = "parseIntNum"   -> PIN(c.x, sd)
+      [] c.op = "parseFloatNum" -> PFN(c.x, sd)
       [] c.op = "toString"      -> Rad(c.x, c.a, sd)
       [] c.op = "toFixed"       -> Fix(c.x, c.a, sd, rp)
       [] c.op = "toExponential" -> Ex(c.x, c.a, sd, rp)
@@ -103,7 +109,7 @@ TextBlocks ==
     \cup {<<"z", 0, 0>>}
 
 Init == /\ cs = None
-        /\ IF Fam = "dom" THEN blk \in {<<"d", b, 0>> : b \in 1..NB} ELSE blk \in TextBlocks
+        /\ IF Fam \in {"dom", "self"} THEN blk \in {<<"d", b, 0>> : b \in 1..NB} ELSE blk \in TextBlocks
 
 T2N(o, s) == [op |-> o.op, s |-> s, a |-> o.a]
 (* this values that are not Numbers (15.7.4): strings, booleans, null *)
@@ -132,14 +138,16 @@ Emit ==
         sd == S!PreShort(cs.x)
         rp == S!PreRound(cs.op, cs.x, cs.a)
         es == Expect(S!ToStrP, S!RoundTripP, S!ToStringRadixP, S!ToFixedP, S!ToExponentialP, S!ToPrecisionP,
-                     S!ToNum, S!ParseFloat, S!ParseInt, S!LitEval, S!LitStr, S!ParseIntStr, S!ThisFixed, S!ThisExponential, S!ThisPrecision, cs, sd, rp)
+                     S!ToNum, S!ParseFloat, S!ParseInt, S!LitEval, S!LitStr, S!ParseIntStr, S!ThisFixed, S!ThisExponential, S!ThisPrecision, S!ParseIntNumP, S!ParseFloatNumP, cs, sd, rp)
         ed == Expect(L!ToStrP, L!RoundTripP, L!ToStringRadixP, L!ToFixedP, L!ToExponentialP, L!ToPrecisionP,
-                     L!ToNum, L!ParseFloat, L!ParseInt, L!LitEval, L!LitStr, L!ParseIntStr, L!ThisFixed, L!ThisExponential, L!ThisPrecision, cs, sd, rp)
+                     L!ToNum, L!ParseFloat, L!ParseInt, L!LitEval, L!LitStr, L!ParseIntStr, L!ThisFixed, L!ThisExponential, L!ThisPrecision, L!ParseIntNumP, L!ParseFloatNumP, cs, sd, rp)
     IN  \/ es.thr = "skip"
         \/ /\ \* self-checks of the specification: 9.8.1 followed by 9.3.1 is the identity, and the
               \* acceptor-based formulation of parseFloat agrees with the direct one
               (cs.op = "rt" => Assert(S!RoundTripHolds(cs.x, sd), <<"round trip is not the identity", cs>>))
            /\ (cs.op = "parseFloat" => Assert(S!ParseFloatGo(cs.s) = S!ParseFloatES(cs.s), <<"parseFloat formulations differ", cs>>))
+           /\ ((Fam = "self" /\ cs.op = "String" /\ IsFinite(cs.x) /\ ~IsSafeInt(cs.x)) =>
+                  Assert(sd = ShortestDigits(IF IsNeg(cs.x) THEN NumNeg(cs.x) ELSE cs.x), <<"ShortDigits differs from NumText!ShortestDigits", cs>>))
            /\ (cs.op = "Number" => Assert(S!StrToNumF(cs.s) = StrToNum(cs.s), <<"StrToNumF differs from Val!StrToNum", cs>>))
            /\ PrintT("VJSON " \o ToJson([c |-> cs, js |-> Js(cs), exp |-> es, dev |-> IF ed = es THEN <<>> ELSE <<ed>>]))
 =============================================================================
